@@ -177,8 +177,133 @@ def shared_containers(ctx, report, RULE='C13.R5', only=None):
                                'edit of one object changes the others and what later parses return' % (o.cls.name, pname, where))
 
 
+MUTABLE_CALLS = ('list', 'dict', 'set', 'bytearray', 'OrderedDict', 'defaultdict', 'deque')
+
+
+def is_mutable_container(node):
+    if isinstance(node, (ast.List, ast.Dict, ast.Set, ast.ListComp, ast.DictComp, ast.SetComp)):
+        return True
+    return isinstance(node, ast.Call) and ast.unparse(node.func).split('.')[-1] in MUTABLE_CALLS
+
+
+def self_name(fn):
+    a = fn.args.posonlyargs + fn.args.args
+    return a[0].arg if a else None
+
+
+def writes_attr(fn, name):
+    """does the function bind or edit ``self.<name>`` anywhere?"""
+    me = self_name(fn)
+    for n in ast.walk(fn):
+        if isinstance(n, ast.Attribute) and n.attr == name and isinstance(n.value, ast.Name) and n.value.id == me:
+            if isinstance(n.ctx, (ast.Store, ast.Del)):
+                return True
+    return False
+
+
+def always_binds(fn, name, lookup, setter_of, base_init, depth=0):
+    """is ``self.<name>`` bound by a statement the function executes on every path that returns (a statement of the body itself,
+    a property assignment whose setter binds it that way, a helper or the base initialiser called from the body)?"""
+    if fn is None or depth > 4:
+        return False
+    me = self_name(fn)
+    for st in fn.body:
+        targets = []
+        if isinstance(st, ast.Assign):
+            targets = [t for tt in st.targets for t in (tt.elts if isinstance(tt, (ast.Tuple, ast.List)) else [tt])]
+        elif isinstance(st, (ast.AnnAssign, ast.AugAssign)) and getattr(st, 'value', None) is not None:
+            targets = [st.target]
+        for t in targets:
+            if isinstance(t, ast.Attribute) and isinstance(t.value, ast.Name) and t.value.id == me:
+                if t.attr == name:
+                    return True
+                setter = setter_of(t.attr)
+                if setter is not None and always_binds(setter, name, lookup, setter_of, None, depth + 1):
+                    return True
+        if isinstance(st, ast.Expr) and isinstance(st.value, ast.Call) and isinstance(st.value.func, ast.Attribute):
+            f = st.value.func
+            if isinstance(f.value, ast.Name) and f.value.id == me:
+                if always_binds(lookup(f.attr), name, lookup, setter_of, None, depth + 1):
+                    return True
+            if f.attr == '__init__' and base_init is not None and isinstance(f.value, ast.Call) and ast.unparse(f.value.func) == 'super':
+                if base_init(name):
+                    return True
+    return False
+
+
+def class_level_fallbacks(ctx, report, RULE='C13.R6'):
+    """A mutable container bound in a class body under the name of an attribute the instances bind themselves (``self.x = ...`` in
+    some method) is the value every instance sees until it binds its own: an initialiser that binds it only on some paths leaves
+    the others sharing one container - with each other and with every object created later."""
+    model = ctx.model
+    report.rule(RULE, 'a mutable container in a class body is never the fallback of an attribute the instances bind themselves')
+
+    def family(c):
+        return [k for k in model.repo_classes() if k is c or k.is_subclass_of(c.name)]
+
+    def finder(k):
+        def lookup(name):
+            f = k.resolve(name)
+            return f.node if f is not None and isinstance(getattr(f, 'node', None), (ast.FunctionDef,)) else None
+
+        def setter_of(attr):
+            for b in k.mro:
+                if not isinstance(b, ClassInfo):
+                    continue
+                for st in b.node.body:
+                    if isinstance(st, ast.FunctionDef) and st.name == attr and any(
+                            isinstance(d, ast.Attribute) and d.attr == 'setter' for d in st.decorator_list):
+                        return st
+            return None
+        return lookup, setter_of
+
+    def init_binds(k, name, start=0):
+        mro = [b for b in k.mro if isinstance(b, ClassInfo)]
+        for i in range(start, len(mro)):
+            fn = next((st for st in mro[i].node.body if isinstance(st, ast.FunctionDef) and st.name == '__init__'), None)
+            if fn is not None:
+                lookup, setter_of = finder(k)
+                return always_binds(fn, name, lookup, setter_of, lambda nm, j=i + 1: init_binds(k, nm, j))
+        return False
+    n = 0
+    for c in model.repo_classes():
+        if c.is_enum:
+            continue
+        for name, node in sorted(c.class_vars.items()):
+            if not isinstance(node, ast.AST) or not is_mutable_container(node):
+                continue
+            n += 1
+            fam = family(c)
+            writers = [(k, st) for k in fam for st in k.node.body if isinstance(st, ast.FunctionDef) and writes_attr(st, name)]
+            if not writers:
+                continue        # read only through the class: a constant table (what it may leak into is R4 / R5)
+            for k in fam:
+                if not init_binds(k, name):
+                    report.add(RULE, '%s@class-level[%s]' % (k.construct, name),
+                               '%s.%s = %s is the value an instance of %s sees until it binds its own (%s binds it), and the initialiser does '
+                               'not bind it on every path: those instances share one container' % (
+                                   c.name, name, ast.unparse(node)[:40], k.name, '%s.%s' % (writers[0][0].name, writers[0][1].name)))
+                    break
+    report.count(RULE, n)
+    # the rule has no instance on the pinned tree: the same functions must find the one of this example on every run
+    example = ast.parse('class Tag:\n    _subtags = []\n    def __init__(self, subtags=None):\n        if subtags is not None:\n'
+                        '            self.subtags = subtags\n    @property\n    def subtags(self):\n        return self._subtags\n'
+                        '    @subtags.setter\n    def subtags(self, value):\n        self._subtags = value\n').body[0]
+    fns = {st.name: st for st in example.body if isinstance(st, ast.FunctionDef) and not st.decorator_list}
+    setters = {st.name: st for st in example.body if isinstance(st, ast.FunctionDef) and st.decorator_list and
+               any(isinstance(d, ast.Attribute) and d.attr == 'setter' for d in st.decorator_list)}
+    ok = is_mutable_container(example.body[0].value) and writes_attr(setters['subtags'], '_subtags') and \
+        not always_binds(fns['__init__'], '_subtags', fns.get, setters.get, None)
+    fixed = ast.parse('def __init__(self, subtags=()):\n    self.subtags = subtags\n').body[0]
+    ok = ok and always_binds(fixed, '_subtags', fns.get, setters.get, None)
+    if not ok:
+        report.error('%s: the built-in example is not decided as expected (rule broken)' % RULE)
+    report.floor(RULE, 15, 'mutable class level containers')
+
+
 def check(ctx, report):
     model, it = ctx.model, ctx.interp
+    class_level_fallbacks(ctx, report)
     report.rule('C13.R1', 'observers do not write to self, to class level state or to their arguments')
     report.rule('C13.R2', 'no attr.ib default shares a mutable object between instances')
     report.rule('C13.R3', 'the parsed object does not alias the input buffer')
